@@ -327,7 +327,8 @@ def cert_phase(ctx: Ctx, goals, imports, shard=6, timeout=600, prelude=""):
             lines.append(f"(* {g.get('label', '')} *)")
             lines.append(f"Goal Rabs ({g['expr']} - {frac(g['value'])}) <= {frac(tol)}.")
             lines.append(f"Proof. cbv beta zeta delta [{unf}]. {g.get('pre', '')} pypow_norm; dec_norm; pypow_norm; cert_close. Qed.")
-        path = os.path.join(ctx.bdir, f"Cert_{ctx.pid}_{s // shard}.v")
+        ctx.cert_files = getattr(ctx, "cert_files", 0) + 1   # unique across several cert_phase calls of one check
+        path = os.path.join(ctx.bdir, f"Cert_{ctx.pid}_{ctx.cert_files - 1}.v")
         open(path, "w").write("\n".join(lines) + "\n")
         files.append((path, part))
 
